@@ -298,6 +298,20 @@ class C05Ledger(Monitor):
                         h.flag("paid_base_charge")
                 v0, v1 = before.vehicles[e["vehicle_id"]], after.vehicles[e["vehicle_id"]]
                 et = _energy_type(v1)
+                # the event must name the station and plug the vehicle is really on (its activity after the step, or - if the
+                # session ended in this step - before it), so that a consistently mis-attributed payment cannot hide
+                on = None
+                for vv in (v1, v0):
+                    n_ = sname(vv)
+                    if n_ == "ChargingStation":
+                        on = (vv.vehicle_state.station_id, vv.vehicle_state.charger_id)
+                    elif n_ == "ChargingBase":
+                        b_ = after.bases.get(vv.vehicle_state.base_id)
+                        on = (b_.station_id if b_ is not None else None, vv.vehicle_state.charger_id)
+                    if on is not None:
+                        break
+                if on is not None and on != (e["station_id"], e["charger_id"]):
+                    yield Violation("C05", "charge event names another station or plug than the one the vehicle charges on", {"vehicle": v1.id, "event": [e["station_id"], e["charger_id"]], "activity": list(on)})
                 if abs((v1.energy_gained[et] - v0.energy_gained[et]) - en) > 1e-9:
                     yield Violation("C05", "charge event energy != energy the vehicle gained", {"vehicle": v1.id, "event": en, "gained": v1.energy_gained[et] - v0.energy_gained[et]})
         for v in after.vehicles.values():
